@@ -40,75 +40,130 @@ def _all(guards, env):
 
 
 # ------------------------------------------------------------------------------------------------ A1
-def check_pixel_id(prog, rep, m):
-    f = m.funcs.get('_get_pixel_id')
-    if f is None:
-        raise AnalysisIncomplete('_get_pixel_id not found')
-    res = {}
-    skip = set()
-    for n in f.own_nodes():
-        if isinstance(n, ast.Assign) and isinstance(n.value, ast.Call):
-            t = prog.resolve_callable(f, m, n.value.func)
-            if isinstance(t, Func) and t.name == 'get_dataarray_resolution' and isinstance(n.targets[0], ast.Tuple):
-                res[n.targets[0].elts[0].id] = Rat.sym('cellsize_x')
-                res[n.targets[0].elts[1].id] = Rat.sym('cellsize_y')
-                skip.add(n)
-    coords = {}
-    for n in f.own_nodes():
-        if isinstance(n, ast.Assign) and isinstance(n.targets[0], ast.Name) and 'coords[' in norm(n.value):
-            t = norm(n.value)
-            if 'ydim' in t:
-                coords[n.targets[0].id] = 'y'
-                skip.add(n)
-            elif 'xdim' in t:
-                coords[n.targets[0].id] = 'x'
-                skip.add(n)
-    rets = [n for n in f.own_nodes() if isinstance(n, ast.Return)]
-    if len(rets) != 1 or not isinstance(rets[0].value, ast.Tuple) or len(rets[0].value.elts) != 2 or len(res) != 2 or \
-            set(coords.values()) != {'x', 'y'}:
-        rep.add('A1', f, ENTRY, '_get_pixel_id', f.node.lineno, None, 'expected `return row, col`, the resolution unpacking '
-                'and the two coordinate arrays')
+def check_pixel_id(prog, rep, m, c):
+    """A1 on the wrapper terms of the public function: what reaches the search kernel as (start row, start column, goal row,
+    goal column) is, without snapping, round-to-nearest of |point[axis] - coords[axis-dim][0]| / cellsize[axis], each
+    from its own axis.  Helper names, parameter names and orders do not matter: the helpers are evaluated in place."""
+    from ..wterm import WT, resolve, to_rat, atom_term, single_atom_term, show as tshow, key as tkey, mentions
+    pub, kern = c.pub, c.kernel
+    res = prog.module('utils').funcs.get('get_dataarray_resolution')
+    if res is None or res.params[1:3] != ['xdim', 'ydim']:
+        raise AnalysisIncomplete('utils.get_dataarray_resolution(agg, xdim, ydim) not found')
+    w = WT(prog, depth=4, keep=[res])
+    w.run(pub)
+    recs = [x for x in w.calls if x.callee is kern]
+    if len(recs) != 1:
+        raise AnalysisIncomplete('a_star_search: %d calls of the search kernel in the wrapper terms' % len(recs))
+    rec = recs[0]
+    if not getattr(c, 'start_params', None) or not getattr(c, 'goal_params', None):
+        rep.add('A1', pub, ENTRY, 'start / goal cell handed to the kernel', rec.node.lineno, None, 'kernel start / goal parameters not identified')
         return
-    env = dict(res)
-    env[f.params[0]] = TupleV([Rat.sym('point_y'), Rat.sym('point_x')])
-    for cn, ax in coords.items():
-        env[cn] = TupleV([Rat.sym('origin_' + ax)])
-    sp = Spec(prog, env, m)
-    # straight-line locals (tuple unpacking of the point, hoisted quotients, ...) in program order
-    for s in f.node.body:
-        if isinstance(s, ast.Assign) and s not in skip and not any(
-                isinstance(x, ast.Name) and x.id in (f.params[1:]) for x in ast.walk(s.value)):
-            try:
-                sp.it.stmt(s)
-            except AnalysisIncomplete:
-                pass
-    for retname, ax in zip(rets[0].value.elts, ('y', 'x')):
-        ok = False
-        why = ''
-        try:
-            got = sp.it.as_scalar(sp.it.ev(retname))
-            q = sp.it.app('abs', [Rat.sym('point_' + ax) - Rat.sym('origin_' + ax)]) / Rat.sym('cellsize_' + ax)
-            at = _single_atom(got)
-            if at is not None and at.name == 'int':
-                inner = _single_atom(at.args[0])
-                if inner is not None and inner.name == 'round':
-                    at = inner
-            if at is not None and at.name == 'int':
-                d = at.args[0] - q
-                ok = d.is_const() and d.const_value() == Fraction(1, 2)
-                why = 'int(q %+s): truncation maps a cell\'s own coordinate to the previous cell when q is e.g. 6.9999' % (
-                    d.const_value() if d.is_const() else '?')
-            elif at is not None and at.name == 'round':
-                ok = (at.args[0] - q).is_const() and (at.args[0] - q).const_value() == 0
-                why = 'round(q)'
-            else:
-                why = 'unrecognised form %s' % show(got, 120)
-        except AnalysisIncomplete as e:
-            why = str(e)
-            ok = None
-        rep.add('A1', f, ENTRY, '%s index = %s' % ('row' if ax == 'y' else 'column', norm(retname)), rets[0].lineno, ok,
-                'a coordinate denotes the cell whose centre is nearest: the %s index must be round-to-nearest of '
-                '|point_%s - origin_%s| / cellsize_%s (int(q + 0.5), round); %s' % ('row' if ax == 'y' else 'column', ax, ax, ax, why))
+    surf = ('param', pub.params[0])
+    rescalls = {tkey(x.result): x for x in w.calls if x.callee is res}
+    for point, params in (('start', c.start_params), ('goal', c.goal_params)):
+        for ax, kp in zip(('y', 'x'), params):
+            term = rec.bound.get(kp)
+            label = '%s %s index (kernel parameter %s)' % (point, 'row' if ax == 'y' else 'column', kp)
+            if term is None:
+                rep.add('A1', pub, ENTRY, label, rec.node.lineno, None, 'not bound in the kernel call')
+                continue
+            for given in (True, False):
+                def decide(cnd, given=given):
+                    if cnd[0] == 'param' and cnd[1].startswith('snap_'):
+                        return False
+                    if cnd[0] == 'cmp' and cnd[1] in ('Is', 'IsNot') and ('const', None) in (cnd[2], cnd[3]):
+                        other = cnd[3] if cnd[2] == ('const', None) else cnd[2]
+                        if other in (('param', 'x'), ('param', 'y')):
+                            return (cnd[1] == 'Is') != given
+                    return None
+                t = resolve(term, decide)
+                ok, why = _nearest_cell(t, point, ax, given, surf, rescalls, res)
+                rep.add('A1', pub, ENTRY, '%s, dimension names %s' % (label, 'given' if given else 'defaulted'), rec.node.lineno, ok,
+                        'a coordinate denotes the cell whose centre is nearest: the %s index must be round-to-nearest of '
+                        '|%s[%d] - %s-coordinate[0]| / cellsize_%s (int(q + 0.5), round); %s'
+                        % ('row' if ax == 'y' else 'column', point, 0 if ax == 'y' else 1, ax, ax, why))
+
+
+def _nearest_cell(t, point, ax, given, surf, rescalls, res):
+    from ..wterm import to_rat, atom_term, single_atom_term, show as tshow, key as tkey
+    def call_of(x, names):
+        return isinstance(x, tuple) and x and x[0] == 'call' and (x[1] in names or (isinstance(x[1], tuple) and x[1][0] == 'global' and x[1][1] in names)) \
+            and len(x[2]) == 1
+    shift = None
+    if call_of(t, ('int', 'builtins.int')):
+        inner = t[2][0]
+        it_ = single_atom_term(to_rat(inner)) if inner[0] == 'arith' else inner
+        if call_of(it_, ('round', 'builtins.round', 'numpy.round', 'numpy.rint')):
+            q, shift = to_rat(it_[2][0]), 0
+        else:
+            q, shift = to_rat(inner) - Rat.const(Fraction(1, 2)), Fraction(1, 2)
+    elif call_of(t, ('round', 'builtins.round')):
+        q, shift = to_rat(t[2][0]), 0
+    else:
+        return None, 'unrecognised form %s' % tshow(t, 160)
+
+    def quotient(q):
+        # q = X / Y with X = abs(..) and Y a resolution component
+        n, d = single_atom_term(Rat(q.n)), single_atom_term(Rat(q.d))
+        if n is None or d is None:
+            return None
+        return n, d
+    qd = quotient(q)
+    if qd is None and shift:
+        q0 = q + Rat.const(shift)
+        if quotient(q0) is not None:
+            return False, 'int(q) without the half-cell shift: truncation maps a coordinate just below a cell centre to the previous cell'
+    if qd is None:
+        return None, 'rounded quantity not of the form |..| / cellsize: %s' % tshow(('arith', q), 160)
+    n, d = qd
+    if not call_of(n, ('abs', 'builtins.abs', 'numpy.abs', 'numpy.absolute', 'numpy.fabs')):
+        return None, 'numerator %s is not an absolute difference' % tshow(n, 120)
+    diff = to_rat(n[2][0])
+    ats = [atom_term(a) for a in diff.atoms()]
+    if len(ats) != 2 or any(a is None for a in ats):
+        return None, 'difference %s' % tshow(n[2][0], 120)
+    pt = [a for a in ats if a[0] == 'index' and a[1] == ('param', point)]
+    co = [a for a in ats if a not in pt]
+    if len(pt) != 1 or len(co) != 1:
+        return None, 'difference %s is not point - coordinate' % tshow(n[2][0], 120)
+    p_, c_ = to_rat(pt[0]), to_rat(co[0])
+    if diff != p_ - c_ and diff != c_ - p_:
+        return False, 'the offset from the origin must be point - first coordinate; got %s' % tshow(n[2][0], 120)
+    want_dim = ('param', ax) if given else ('index', ('attr', surf, 'dims'), ('const', -2 if ax == 'y' else -1))
+    want_k = 0 if ax == 'y' else 1
+    if pt[0][2] != ('const', want_k):
+        return False, 'component %s of the (y, x) point used for the %s axis' % (tshow(pt[0][2]), ax)
+    # coordinate: surface.coords[dim].data[0] (or .values / indexes)
+    cc = co[0]
+    if not (cc[0] == 'index' and cc[2] == ('const', 0)):
+        return None, 'coordinate term %s' % tshow(cc, 120)
+    base = cc[1]
+    while base[0] in ('data', 'cast') or (base[0] == 'attr' and base[2] in ('data', 'values')):
+        base = base[1]
+    dim = None
+    if base[0] == 'index' and base[1][0] == 'attr' and base[1][1] == surf and base[1][2] in ('coords', 'indexes'):
+        dim = base[2]
+    elif base[0] == 'index' and base[1] == surf:
+        dim = base[2]
+    elif base[0] == 'coord' and base[1] == surf:
+        dim = ('param', base[2]) if given else None
+    if dim is None:
+        return None, 'coordinate array %s not recognised' % tshow(base, 120)
+    if tkey(dim) != tkey(want_dim):
+        return False, 'the %s index is measured along dimension %s' % ('row' if ax == 'y' else 'column', tshow(dim, 80))
+    # cell size: component of get_dataarray_resolution(surface, xdim, ydim) -> (cellsize_x, cellsize_y)
+    if not (d[0] == 'index' and d[2][0] == 'const' and d[1][0] == 'call' and d[1][1] == res.qualname):
+        return None, 'divisor %s is not a component of get_dataarray_resolution(..)' % tshow(d, 120)
+    b = dict(zip(res.params, d[1][2]))
+    b.update(dict(d[1][3]))
+    dims = {'x': ('param', 'x') if given else ('index', ('attr', surf, 'dims'), ('const', -1)),
+            'y': ('param', 'y') if given else ('index', ('attr', surf, 'dims'), ('const', -2))}
+    if b.get(res.params[0]) != surf or tkey(b.get('xdim')) != tkey(dims['x']) or tkey(b.get('ydim')) != tkey(dims['y']):
+        return False, 'cell sizes taken from get_dataarray_resolution(%s): the x / y dimension names must reach xdim / ydim' % \
+            ', '.join('%s=%s' % (k_, tshow(v_, 50)) for k_, v_ in b.items())
+    if d[2][1] != (1 if ax == 'y' else 0):
+        return False, 'cell size component %s (x is 0, y is 1) divides the %s offset' % (d[2][1], ax)
+    return True, 'int(q + 1/2)' if shift else 'round(q)'
 
 
 def _single_atom(r):
@@ -122,28 +177,51 @@ def _single_atom(r):
 
 # ------------------------------------------------------------------------------------------------ A2
 def check_metric(prog, rep, m, c):
-    d = m.funcs.get('_distance')
-    h = m.funcs.get('_heuristic')
-    if d is None or h is None:
-        raise AnalysisIncomplete('_distance / _heuristic not found')
-    kd = interpret(prog, d)
-    want = Spec(prog, {p: Rat.sym(p) for p in d.params}).expr('sqrt((%s - %s) ** 2 + (%s - %s) ** 2)' % (
-        d.params[0], d.params[2], d.params[1], d.params[3]))
-    got = kd.returns[0][0] if kd.returns else None
-    rep.add('A2', d, ENTRY, '_distance = %s' % show(got, 120), d.node.lineno, isinstance(got, Rat) and got == want,
-            'the step cost must be the Euclidean distance between the two pixels (1 for edge steps, sqrt 2 for diagonals)')
-    kh = interpret(prog, h)
-    goth = kh.returns[0][0] if kh.returns else None
-    wanth = Spec(prog, {p: Rat.sym(p) for p in h.params}).expr('sqrt((%s - %s) ** 2 + (%s - %s) ** 2)' % (
-        h.params[0], h.params[2], h.params[1], h.params[3]))
-    ok = isinstance(goth, Rat) and (goth == wanth or goth == Rat.const(0))
-    if isinstance(goth, Rat) and not ok and not wanth.n.is_zero():
-        r = goth / wanth
-        ok = r.is_const() and 0 <= r.const_value() <= 1
-    rep.add('A2', h, ENTRY, '_heuristic = %s' % show(goth, 120), h.node.lineno, ok,
-            'the heuristic must never overestimate the remaining cost: Euclidean distance (or a fraction of it, or 0); '
-            'e.g. Manhattan distance is inadmissible with diagonal steps and loses optimality')
-    c.dist_f, c.heur_f = d, h
+    """A2 on every metric helper reachable from the search kernel: a jit function of four scalars that returns one
+    scalar expression.  Each must be the Euclidean distance between two of its parameter pairs, or a constant fraction
+    (0..1) of it - an admissible heuristic; which pair is which point is decided where the helper is used (A5: the g and f
+    updates are evaluated with the helpers folded in)."""
+    seen, todo, cands = set(), [c.kernel], []
+    while todo:
+        g = todo.pop()
+        if g in seen:
+            continue
+        seen.add(g)
+        for n in g.own_nodes():
+            if isinstance(n, ast.Call):
+                t = prog.resolve_callable(g, g.module, n.func)
+                if isinstance(t, Func) and t.module is m and t not in seen:
+                    todo.append(t)
+    for g in sorted(seen, key=lambda g_: g_.node.lineno):
+        if g is c.kernel or len(g.params) != 4 or g.jit is None or any(isinstance(x, (ast.For, ast.While, ast.Subscript)) for x in g.own_nodes()):
+            continue
+        try:
+            kg = interpret(prog, g)
+        except AnalysisIncomplete:
+            continue
+        if len(kg.returns) != 1 or not isinstance(kg.returns[0][0], Rat) or kg.stores:
+            continue
+        cands.append((g, kg.returns[0][0]))
+    if not cands:
+        raise AnalysisIncomplete('no distance helper (four scalars -> scalar) reachable from the search kernel')
+    for g, got in cands:
+        p = [Rat.sym(x) for x in g.params]
+        ok, which = False, ''
+        for (a, b), (c_, d_) in (((0, 1), (2, 3)), ((0, 2), (1, 3)), ((0, 3), (1, 2))):
+            want = Spec(prog, {x: Rat.sym(x) for x in g.params}).expr('sqrt((%s - %s) ** 2 + (%s - %s) ** 2)' % (
+                g.params[a], g.params[b], g.params[c_], g.params[d_]))
+            if got == want or got == Rat.const(0):
+                ok, which = True, 'Euclidean'
+                break
+            if not want.n.is_zero():
+                r = got / want
+                if r.is_const() and 0 <= r.const_value() <= 1:
+                    ok, which = True, '%s x Euclidean' % r.const_value()
+                    break
+        rep.add('A2', g, ENTRY, '%s = %s' % (g.name, show(got, 120)), g.node.lineno, ok,
+                'step cost and heuristic must be the Euclidean distance between two pixels (1 for edge steps, sqrt 2 for diagonals); '
+                'a heuristic may be a fraction of it, never more: e.g. Manhattan distance is inadmissible with diagonal steps and '
+                'loses optimality; ' + which)
 
 
 # ------------------------------------------------------------------------------------------------ A3 tables
@@ -421,6 +499,9 @@ def check_argmin(prog, rep, m, g, role):
     # initial value above every attainable one
     init = outer[0].pre.get(mn)
     txt = repr(init)
+    va = _single_atom(facts['V']) if isinstance(facts.get('V'), Rat) else None
+    if va is not None and va.name in ('read', 'cell?') and isinstance(va.args[0], str):
+        txt = txt.replace("'%s'" % va.args[0], "'cost'")     # the table is keyed with the scanned array called `cost`
     ok = isinstance(init, Rat) and (init == Rat.atom(App('inf', [])) or txt in ARGMIN_TABLE)
     rep.add('A6', g, ENTRY, '%s: running minimum `%s` starts at %s' % (g.name, mn, show(init, 90)), g.node.lineno, ok,
             'an argmin with a strict `<` test finds nothing when its initial value is attainable: it must start at +inf '
@@ -541,6 +622,11 @@ def check_reconstruct(prog, rep, m, r):
     return roles
 
 
+def _allocates(g):
+    return any(isinstance(n, ast.Call) and isinstance(n.func, ast.Attribute) and n.func.attr in (
+        'zeros', 'ones', 'full', 'empty', 'zeros_like', 'ones_like', 'full_like', 'empty_like') for n in g.own_nodes())
+
+
 def _sym_name(r):
     if isinstance(r, Rat):
         a = _single_atom_sym(r)
@@ -559,7 +645,8 @@ def _single_atom_sym(r):
 # ------------------------------------------------------------------------------------------------ A5 search
 def check_search(prog, rep, m, c):
     f = c.kernel
-    k = interpret(prog, f, strict=False)
+    # phases of a split kernel (functions that allocate the bookkeeping arrays and hand them back) run in place
+    k = interpret(prog, f, strict=False, inline_all=lambda g: g.jit is not None and g.module is m and g is not c.recon_func and _allocates(g))
     inl = getattr(k, 'inlined', [])
     wl = [L for L in k.loops if L.kind == 'while']
     if len(wl) != 1:
@@ -696,8 +783,10 @@ def check_search(prog, rep, m, c):
     # the min-cost helper is applied to (f, open)
     if c.min_func is not None and fname is not None:
         args = sel[0][1]
+        # which argument is the priority and which the eligibility mask is decided on the helper's own use of its
+        # parameters (rule `selection: minimal .. over cells flagged in ..` below)
         okm = len(args) == 2 and isinstance(args[0], Arr) and isinstance(args[1], Arr) and \
-            args[0].name in (fname, gname) and args[1].name == OPEN.name
+            sorted(a.name for a in args) in (sorted((fname, OPEN.name)), sorted((gname, OPEN.name)))
         c.min_args = [a.name for a in args if isinstance(a, Arr)]
         rep.add('A5', f, ENTRY, 'current cell = %s(%s)' % (c.min_func.name, ', '.join(c.min_args)), Lw.node.lineno, okm,
                 'the cell to expand must be chosen from the open flags by minimal f-cost (or g-cost: Dijkstra order), not from the closed flags')
@@ -1002,7 +1091,6 @@ def check(prog, rep):
     c.rows_param = c.cols_param = None
     c.roles = None
     c.min_func = None
-    check_pixel_id(prog, rep, m)
     check_metric(prog, rep, m, c)
     check_crossable(prog, rep, m, c.cross_func)
     if c.recon_roles:       # otherwise the reconstruction rule has already given its verdict
@@ -1016,6 +1104,7 @@ def check(prog, rep):
         if c.img_param not in kern.params or any(p not in kern.params for p in c.start_params + c.goal_params):
             raise AnalysisIncomplete('search kernel: image / start / goal are not kernel parameters')
         check_search(prog, rep, m, c)
+    check_pixel_id(prog, rep, m, c)
     if c.rows_param and c.cols_param:
         check_tables(prog, rep, m, c)
     # argmin scans: the selection helper and every other jit function of the module with a running minimum (snapping)
@@ -1071,8 +1160,8 @@ def check(prog, rep):
             call.lineno, ok, 'cells off the path (and everything when no route exists) must be NaN: the image handed to the '
             'search must be a fresh float array filled with NaN')
     rets = [r for r in pub.own_nodes() if isinstance(r, ast.Return)]
-    rep.floor('A1', 2)
-    rep.floor('A2', 2)
+    rep.floor('A1', 8)
+    rep.floor('A2', 1)
     rep.floor('A3', 5)
     rep.floor('A4', 5)
     rep.floor('A5', 10)
